@@ -361,6 +361,15 @@ type Snapshot struct {
 	Rows   []Row
 	Strand int8
 	NRows  int
+	// Span is set when a row reports an extent that is not its length: End() - Start() != Len()
+	Span string
+}
+
+func spanOf(i int, r seq.Sequence) string {
+	if r.End()-r.Start() != r.Len() {
+		return fmt.Sprintf("row %d reports Start() %d, End() %d and Len() %d", i, r.Start(), r.End(), r.Len())
+	}
+	return ""
 }
 
 func rowStrand(s seq.Sequence) int8 {
@@ -412,12 +421,18 @@ func (o *Object) Observe() Snapshot {
 		sn.Strand = int8(o.ASeq.Strand)
 		for i := 0; i < sn.NRows; i++ {
 			sn.Rows = append(sn.Rows, observeRow(o.ASeq.Row(i), false, o.ASeq.Start(), o.ASeq.End()))
+			if sp := spanOf(i, o.ASeq.Row(i)); sp != "" {
+				sn.Span = sp
+			}
 		}
 	case o.AQSeq != nil:
 		sn.NRows = o.AQSeq.Rows()
 		sn.Strand = int8(o.AQSeq.Strand)
 		for i := 0; i < sn.NRows; i++ {
 			sn.Rows = append(sn.Rows, observeRow(o.AQSeq.Row(i), true, o.AQSeq.Start(), o.AQSeq.End()))
+			if sp := spanOf(i, o.AQSeq.Row(i)); sp != "" {
+				sn.Span = sp
+			}
 		}
 	default:
 		rw := o.rower()
@@ -425,6 +440,9 @@ func (o *Object) Observe() Snapshot {
 		for i := 0; i < sn.NRows; i++ {
 			r := rw.Row(i)
 			sn.Rows = append(sn.Rows, observeRow(r, o.quality(), r.Start(), r.End()))
+			if sp := spanOf(i, r); sp != "" {
+				sn.Span = sp
+			}
 		}
 	}
 	return sn
@@ -454,6 +472,9 @@ type Opts struct {
 func CompareRows(sn Snapshot, m *Model, o Opts) error {
 	if sn.NRows != len(m.Rows) || len(sn.Rows) != len(m.Rows) {
 		return fmt.Errorf("rows: container has %d rows, expected %d", sn.NRows, len(m.Rows))
+	}
+	if sn.Span != "" {
+		return fmt.Errorf("coordinates: %s", sn.Span)
 	}
 	for i, w := range m.Rows {
 		g := sn.Rows[i]
